@@ -93,9 +93,58 @@ def histories_for_case(case: dict, rng: random.Random, all_orders: bool) -> tupl
 def classify(tr: dict, reached: int) -> dict:
     evs = tr["ev"]
     e = evs[reached - 1]
+    if e["e"] == "combo":
+        multi = {oo for f in tr["desc"]["funcs"] if len(f["outputs"]) > 1 for oo in f["outputs"]}
+        names = [n for n, _ in e["kw"]]
+        # classification only (TLC has already decided): which listed names does the evaluation not consult under this cut?
+        surplus = set(names) - _consulted(tr["desc"], set(names), e["out"])
+        sibling = bool(surplus) and surplus <= multi
+        return {"check": "arg_combinations", "clause": "listed-combination-not-a-valid-cut",
+                **features(tr["desc"], e["out"], e["kw"]), "contains_unused_sibling_output": sibling}
     b = next(x for x in reversed(evs[:reached]) if x["e"] == "begin")
     return {"check": "call-history", "event": e["e"], "cls": e["cls"], "mode": b["mode"],
             **features(tr["desc"], b["out"], b["kw"])}
+
+
+def _consulted(desc: dict, supplied: set, out: str) -> set:
+    """Names of `supplied` that the evaluation of `out` reads (backward closure stopping at supplied names)."""
+    prod = {o: f for f in desc["funcs"] for o in f["outputs"]}
+    seen, todo, used = set(), [out], set()
+    while todo:
+        o = todo.pop()
+        f = prod.get(o)
+        if f is None or f["name"] in seen:
+            continue
+        seen.add(f["name"])
+        bound = {p for p, _ in f["bound"]}
+        for p in f["params"]:
+            if p in bound:
+                continue
+            if p in supplied:
+                used.add(p)
+            elif p in prod:
+                todo.append(p)
+    return used
+
+
+def _consumed_towards(desc: dict, name: str, out: str) -> bool:
+    """Is `name` a parameter of some function that `out` (transitively) depends on?"""
+    prod = {o: f for f in desc["funcs"] for o in f["outputs"]}
+    seen, todo = set(), [out]
+    while todo:
+        o = todo.pop()
+        f = prod.get(o)
+        if f is None or f["name"] in seen:
+            continue
+        seen.add(f["name"])
+        bound = {p for p, _ in f["bound"]}
+        for p in f["params"]:
+            if p in bound:
+                continue
+            if p == name:
+                return True
+            todo.append(p)
+    return False
 
 
 def validate(ctx: Ctx, traces: list[dict], name: str) -> None:
@@ -105,6 +154,11 @@ def validate(ctx: Ctx, traces: list[dict], name: str) -> None:
         tr = traces[i]
         sig = classify(tr, reached)
         evs = tr["ev"]
+        if evs[reached - 1]["e"] == "combo":
+            ctx.violation(sig, f"arg_combinations({evs[reached-1]['out']!r}) lists {[n for n, _ in evs[reached-1]['kw']]}, "
+                               "which the specification does not accept as a valid cut",
+                          {"desc": tr["desc"], "out": evs[reached - 1]["out"], "listed": [n for n, _ in evs[reached - 1]["kw"]]})
+            continue
         bi = max(k for k in range(reached) if evs[k]["e"] == "begin")
         ctx.violation(sig, f"pipeline call not explained by PipelineCall.tla at event {reached}: {evs[reached-1]}",
                       {"desc": tr["desc"], "call": evs[bi], "events": evs[bi:reached + 1]})
@@ -129,7 +183,10 @@ def random_desc(rng: random.Random, nf: int) -> dict:
             elif r > 0.88:
                 bnd.append([p, {"f": f"@b_{p}_{i}", "a": []}])
         funcs.append({"name": name, "params": params, "outputs": outs, "defaults": dfl, "bound": bnd, "has_ms": False,
-                      "ms": {"ins": [], "outs": []}, "internal": [], "cache": False})
+                      "ms": {"ins": [], "outs": []}, "internal": [], "cache": False,
+                      "retnone": rng.random() < 0.12,                      # None is an ordinary result value
+                      "outperm": len(outs) > 1 and rng.random() < 0.4,     # tuple outputs renamed by a permutation
+                      "outrenamed": rng.random() < 0.2})
         avail += outs
     # consistent defaults: one default value per name (already by construction)
     return {"funcs": funcs}
@@ -144,6 +201,9 @@ def random_history(rng: random.Random, tdesc: dict) -> dict:
         pl = build.make_pipeline({"funcs": [pdesc["funcs"][i] for i in order]})
     outs = [o for f in pdesc["funcs"] for o in f["outputs"]]
     evs: list[dict] = []
+    for o in outs:                      # every listed combination of every output must be a valid cut (TLC decides)
+        for c in sorted(pl.arg_combinations(o)):
+            evs.append(pcall.ev(e="combo", out=o, kw=[[x, pcall.kv(x)] for x in c]))
     for _ in range(6):
         o = rng.choice(outs)
         combos = sorted(pl.arg_combinations(o))
